@@ -334,7 +334,7 @@ inline void fuzz_account(const std::string &text, const Verdict &v) {
     if (v.nontrivial) { A.nontrivial++; if (A.hashes.size() < 2000000) A.hashes.insert(fnv1a(text)); if (A.sample.empty() || (A.execs % 50000) == 0) A.sample = text; }
     const char *out = getenv("FUZZ_OUT");
     if (!v.ok) {
-        if (out) write_file(std::string(out) + "/fuzz-fail." + std::to_string(getpid()) + ".case", "# rule " + v.rule + "\n# " + v.message.substr(0, 300) + "\n" + text);
+        if (out) { std::string first = v.message.substr(0, v.message.find('\n')); write_file(std::string(out) + "/fuzz-fail." + std::to_string(getpid()) + ".case", "# rule " + v.rule + "\n# " + first.substr(0, 300) + "\n" + text); }
         fuzz_flush();
         fprintf(stderr, "FUZZ-VIOLATION %s: %s\n", v.rule.c_str(), v.message.c_str());
         __builtin_trap();
